@@ -19,7 +19,7 @@ pub static MISSING_CHILD: AtomicU64 = AtomicU64::new(0);
 pub const PROFILES: [&str; 2] = ["release", "dbgchk"];
 
 fn child_path(profile: &str) -> String {
-    format!("{}/harness/target/{}/c08_child", VERIF_DIR, profile)
+    format!("{}/harness/target/{}/c08_child", verif_dir(), profile)
 }
 
 pub enum ChildOut {
